@@ -17,6 +17,7 @@ case "$name" in
   *-i) base="${name%-i}"; wt=/tmp/seed9-$base; out=/tmp/seed9-$base-out ;;
   *-j) base="${name%-j}"; wt=/tmp/seed10-$base; out=/tmp/seed10-$base-out ;;
   *-k) base="${name%-k}"; wt=/tmp/seed11-$base; out=/tmp/seed11-$base-out ;;
+  *-l) base="${name%-l}"; wt=/tmp/seed12-$base; out=/tmp/seed12-$base-out ;;
   *)   wt=/tmp/seed-$name; out=/tmp/seed-$name-out ;;
 esac
 dst=/verif/seeded/$name
